@@ -5,7 +5,11 @@
 (* the call is not yet logged: a thread preempted between the loop's flag check and the call) and right    *)
 (* after the call was logged ("do": inside the work function) -, at the entry of interruptable_sleep(), at *)
 (* entry and at the exit of wake() (also inside stop(): "between the statements of stop() separated by its *)
-(* call to wake()"), at the entry of wait() (also inside stop()) and between controller calls.  A thread   *)
+(* call to wake()"), at the entry of wait() (also inside stop()) and between controller calls; and during   *)
+(* the start-up of the loop thread: the starter inside start() at the entry of Thread.start() ("thS": the  *)
+(* thread object is assigned, no thread runs - only when a second controller exists that could act there)  *)
+(* and the new thread once it has bootstrapped, before the first statement of run() ("boot": start() has    *)
+(* returned or can return; the service is started, its loop thread has not run yet).  A thread             *)
 (* that is released runs alone to its next gate, to the end of its call, to its death, or until it blocks  *)
 (* (join on a live thread; the interrupt Event when the sleep was released in "block" mode).  This module  *)
 (* is Runnable.tla under exactly that coarse scheduler: while some thread is running only that thread      *)
@@ -15,14 +19,17 @@
 (* Threads that resume because another thread unblocked them (a joiner after the loop died) touch no       *)
 (* shared field afterwards, so their order against the running thread does not matter.                     *)
 EXTENDS Runnable, Json
-CONSTANT MaxTok
+CONSTANTS MaxTok,
+          PreBoot     \* with PreStarted: the initial state is the one right after the first start() has returned
+                      \* while the new loop thread is still held before run() (gate "boot")
 VARIABLES h,        \* tokens so far
           parked,   \* thread -> name of the gate it is held at ("" = not held)
           mode      \* how the loop's current sleep was released: "poll" (times out at once) / "block"
 gvars == <<sh, lp, ac, ncalls, g, ga, bad, h, parked, mode>>
 
 InSelfStop == lp.pc = "instop" /\ ac[0].pc # "idle"
-LoopBlocked == lp.pc = "none" \/ (lp.pc = "sl2" /\ ~sh.flag /\ mode = "block")
+LoopBlocked == lp.pc \in {"none", "created"} \/ (lp.pc = "sl2" /\ ~sh.flag /\ mode = "block")
+GateThS == Ctls # {Owner}
 ActorBlocked(a) == \/ ac[a].pc = "idle"
                    \/ (ac[a].pc = "wt2" /\ TState(ac[a].t) = "alive" /\ ac[a].kind # "waitT")
                    \/ (ac[a].pc = "sa8" /\ sh.tst = "new")
@@ -32,10 +39,18 @@ Runners == {t \in Actors : Running(t)}
 
 Status == [t \in Actors |->
              IF parked[t] # "" THEN parked[t]
-             ELSE IF t = 0 THEN (IF lp.pc = "none" THEN "dead" ELSE "blocked")
+             ELSE IF t = 0 THEN (IF lp.pc = "none" THEN "dead" ELSE IF lp.pc = "created" THEN "unborn" ELSE "blocked")
              ELSE IF ac[t].pc = "idle" THEN "idle" ELSE "blocked"]
 
-GenInit == Init /\ h = <<>> /\ parked = [t \in Actors |-> ""] /\ mode = "poll"
+GenInit == /\ Init /\ h = <<>> /\ mode = "poll"
+           /\ parked = [t \in Actors |-> ""]
+GenInitBoot ==          \* Init with the loop thread of the first start() held at "boot"
+  /\ PreStarted /\ PreBoot
+  /\ sh = [stopping |-> FALSE, shutdown |-> FALSE, intr |-> 0, flag |-> FALSE, thread |-> 1, gen |-> 1, tst |-> "alive"]
+  /\ lp = [pc |-> "runE", k |-> 0, out |-> "did", ndo |-> 0]
+  /\ ac = [a \in Actors |-> AIdle] /\ ncalls = 0
+  /\ g = [GInit EXCEPT !.run = TRUE] /\ ga = GAInit(Actors) /\ bad = {}
+  /\ h = <<>> /\ mode = "poll" /\ parked = [t \in Actors |-> IF t = 0 THEN "boot" ELSE ""]
 
 Keep == UNCHANGED <<h, mode>>
 Park(t, gate) == parked' = [parked EXCEPT ![t] = gate]
@@ -47,11 +62,13 @@ ActorRun(a) ==
   \/ AWkE(a) /\ Park(a, "wkE") /\ Keep
   \/ AWkX(a) /\ Park(a, "wkX") /\ Keep
   \/ AWtE(a) /\ Park(a, "wtE") /\ Keep
+  \/ AThS(a) /\ (IF GateThS THEN Park(a, "thS") ELSE NoPark) /\ Keep
   \/ (\E r \in {"ok", "false", "exc"} : ARet(a, r)) /\ NoPark /\ Keep
   \/ a = 0 /\ ACall(0, ac[0].kind) /\ NoPark /\ Keep
 LoopRun ==
   \/ LTop2 /\ (IF sh.shutdown THEN NoPark ELSE Park(0, "pre")) /\ Keep
-  \/ (LBoot \/ LR1 \/ LTop1 \/ LPerform \/ LDoRet \/ LChk1 \/ LChk2 \/ LSl2w \/ LSl3
+  \/ LBoot /\ Park(0, "boot") /\ Keep
+  \/ (LRunE \/ LR1 \/ LTop1 \/ LPerform \/ LDoRet \/ LChk1 \/ LChk2 \/ LSl2w \/ LSl3
       \/ LFin1 \/ LFin3 \/ LFin4 \/ LDie \/ LFinE \/ LDone \/ LExit) /\ NoPark /\ Keep
   \/ mode = "poll" /\ LSl2t /\ NoPark /\ Keep
   \/ \E o \in AllOutcomes : LDo(o) /\ Park(0, "do") /\ h' = Append(h, [k |-> "do", a |-> 0, x |-> o, pre |-> Status]) /\ UNCHANGED mode
@@ -74,7 +91,7 @@ Token ==
           /\ UNCHANGED <<parked, mode>>
 
 GenNext == IF Runners # {} THEN Run(MinRunner) ELSE Token
-GenSpec == GenInit /\ [][GenNext]_gvars
+GenSpec == (IF PreBoot THEN GenInitBoot ELSE GenInit) /\ [][GenNext]_gvars
 
 Settled == Runners = {}
 CanToken == \/ \E t \in Actors : parked[t] # ""
